@@ -438,6 +438,25 @@ def subprocess_batch(ctx, wd, rng, k):
                           what="process exit status of a fresh interpreter differs from the in-process exit code")
 
 
+def sequence_batch(ctx, wd, rng, k):
+    """several invocations in ONE process on the SAME two paths whose contents are rewritten in between (the other batches
+    use fresh paths for every scenario, and forgive a disagreement that does not reproduce on an immediate re-run)"""
+    for _ in range(k):
+        seq = p6.gen_sequence(rng)
+        res = p6.run_sequence(seq, wd)
+        for sc, (o, want, readok) in zip(seq["steps"], res):
+            ctx.case(("sequence", cs.cli_line("cli", cs.abstract(sc, ["x"]))), nontrivial=True,
+                     tags=[seq["fmt"], "p6-same-paths-rewritten", "exit-" + cs.outcome_class(o)] +
+                          ([] if readok else ["discarded-reader-sidecheck"]))
+        i = p6.sequence_bad(res)
+        if i is not None and p6.sequence_bad(p6.run_sequence(seq, wd)) is not None:
+            seq["steps"] = seq["steps"][:i + 1]
+            while len(seq["steps"]) > 1 and p6.sequence_bad(p6.run_sequence(dict(seq, steps=seq["steps"][1:]), wd)) is not None:
+                seq["steps"] = seq["steps"][1:]
+            ctx.violation(seq, res[i][0], res[i][1], cls=None,
+                          what=WHAT + " (last of a sequence of invocations on the same paths in one process)")
+
+
 def p6_batches(ctx, wd):
     """all drawn from a generator of their own (the stream of the older batches is unchanged)"""
     import random
@@ -458,13 +477,14 @@ def p6_batches(ctx, wd):
     timed("sizes", lambda: evaluate(ctx, p6.size_scenarios(rng, sizes, per_size=ctx.scale(2, 6)), wd))
     timed("maxside", lambda: evaluate(ctx, p6.maxside_scenarios(rng, rounds=ctx.scale(2, 20)), wd))
     timed("ignore-matrix", lambda: evaluate(ctx, p6.ignore_matrix_scenarios(rng, nbase=ctx.scale(1, 12)), wd))
-    timed("role-swap", lambda: evaluate(ctx, p6.swap_scenarios(rng, ctx.scale(120, 4000)), wd))
+    timed("role-swap", lambda: evaluate(ctx, p6.swap_scenarios(rng, ctx.scale(90, 4000)), wd))
     timed("verbosity-sweep", lambda: evaluate(ctx, p6.verbosity_sweep(rng, ctx.scale(6, 80)), wd))
     timed("same-file", lambda: evaluate(ctx, p6.samefile_scenarios(rng, ctx.scale(8, 100)), wd))
-    timed("presentation", lambda: evaluate(ctx, p6.presentation_scenarios(rng, ctx.scale(160, 6000)), wd))
+    timed("presentation", lambda: evaluate(ctx, p6.presentation_scenarios(rng, ctx.scale(120, 6000)), wd))
     timed("mesh-flags", lambda: meshflag_batch(ctx, wd, rng, ctx.scale(2, 40)))
+    timed("same-paths-rewritten", lambda: sequence_batch(ctx, wd, rng, ctx.scale(12, 300)))
     timed("report-unwritable", lambda: report_failure_batch(ctx, wd, rng, ctx.scale(10, 150)))
-    timed("subprocess", lambda: subprocess_batch(ctx, wd, rng, ctx.scale(6, 48)))
+    timed("subprocess", lambda: subprocess_batch(ctx, wd, rng, ctx.scale(4, 48)))
     ctx.notes.append("phase-6 G1c batches: " + "; ".join(timings))
 
 
@@ -552,6 +572,14 @@ def _replay_special(sc):
         return (want is not None and (cs.outcome_class(out) == "0") != (want == "0"),
                 f"mesh flags {p6.meshflag_argv(sc, 'RES', 'REF')[3:]} variant={sc['variant']} gross={sc['gross']} impl={out} "
                 f"expected={want} ({why})")
+    if sc.get("kind") == "p6-sequence":
+        wd = cs.Workdir()
+        try:
+            res = p6.run_sequence(sc, wd)
+        finally:
+            wd.close()
+        return (p6.sequence_bad(res) is not None,
+                "sequence on the same paths: " + "; ".join(f"step {i}: impl={o} expected={w}" for i, (o, w, _) in enumerate(res)))
     if sc.get("p6_report_unwritable"):
         wd = cs.Workdir()
         try:
